@@ -4,6 +4,7 @@ package ship
 
 import (
 	"errors"
+	"sync"
 	"time"
 
 	"github.com/enbility/ship-go/api"
@@ -33,12 +34,19 @@ type vEvent struct {
 }
 
 type vLog struct {
+	mu sync.Mutex
 	Ev []vEvent
 }
 
-func (l *vLog) add(e vEvent) { l.Ev = append(l.Ev, e) }
+func (l *vLog) add(e vEvent) {
+	l.mu.Lock()
+	l.Ev = append(l.Ev, e)
+	l.mu.Unlock()
+}
 
 func (l *vLog) count(kind int) int {
+	l.mu.Lock()
+	defer l.mu.Unlock()
 	n := 0
 	for _, e := range l.Ev {
 		if e.Kind == kind {
